@@ -37,7 +37,10 @@ def generate(rng, tier):
 def gen_case(rng):
     regs = Regs()
     SR = rng.choice([1e9, 2.4e9, 25e9, 1000.0])
-    short = rng.random() < 0.12
+    # outcome classes (measured, see DESIGN 9.7): package produced / one voltage outside / a sequencing value at or
+    # beyond an instrument limit (voltages inside, so that the sequencing guard is reached) / fewer than 2400 points
+    klass = rng.choice(["inside"] * 9 + ["voltage"] * 4 + ["sequencing"] * 5 + ["short"] * 2)
+    short = klass == "short"
     N = 2399 if short else rng.choice([2400, 2400, 2401, 2500, 2600])
     nch = rng.randint(1, 3)
     npos = rng.randint(1, 3)
@@ -47,7 +50,7 @@ def gen_case(rng):
     s = regs.S()
     prog = [("SNew", s), ("SSetSR", s, SR)]
     modes, flags = {}, {}
-    any_out = False
+    any_out = klass != "voltage"          # True: no (further) voltage leaves its range
     order = list(range(1, npos + 1))
     rng.shuffle(order)                      # positions are filled in arbitrary order
     for pos in order:
@@ -59,7 +62,7 @@ def gen_case(rng):
             lo, hi = -ampl[c] / 2, ampl[c] / 2
             mode = rng.choice(["in", "in", "in", "at_hi", "at_lo", "above", "below", "ulp_above", "ulp_below"])
             if mode in ("above", "below", "ulp_above", "ulp_below"):
-                if any_out or rng.random() < 0.5:
+                if any_out:
                     mode = "in"
                 else:
                     any_out = True
@@ -108,11 +111,15 @@ def gen_case(rng):
                    "jump_target": rng.choice([-1, 0, npos, npos, npos + 1, -2]),
                    "goto": rng.choice([0, npos, npos, 1, npos + 1, -1]),
                    "jump_input": rng.choice([0, 1, 3, 3, 4, -1])}[fld]
+            if klass != "sequencing":
+                val = {"twait": rng.choice([0, 1, 2, 3]), "nrep": rng.choice([0, 1, 2, 16383]),
+                       "jump_target": rng.choice([-1, 0, 1, npos]), "goto": rng.choice([0, 1, npos]),
+                       "jump_input": rng.choice([0, 1, 2, 3])}[fld]
             prog.append(("SSetSequencing", s, pos, fld, val))
     if rng.random() < 0.6:
         prog.append(("SSetName", s, rng.choice(["myseq", "seq_1", "x"])))
     prog += [("OSChannels", s), ("OSForge", s, True, True, False), ("OSSeqx", s, False), ("OSSeqx", s, True)]
-    return {"prog": prog, "kind": "short" if short else ("out-of-range" if any_out else "in-range"), "N": N,
+    return {"prog": prog, "kind": klass, "N": N,
             "ampl": {str(k): v for k, v in ampl.items()}, "modes": modes, "flags": flags, "npos": npos, "nch": nch,
             "name": next((o[2] for o in prog if o[0] == "SSetName"), "")}
 
